@@ -40,3 +40,4 @@ open Pandora.C14 Pandora.Interp
 #print axioms Pandora.C14Kernels.findValidNeighborsAt_generated_eq
 #print axioms Pandora.C14Kernels.findValidNeighbors_generated_eq_table
 #print axioms Pandora.C14Kernels.findValidNeighbors_generated_eq
+#print axioms Pandora.C14Kernels.occlusionSgm_generated_eq
